@@ -123,7 +123,7 @@ CLAIMS['C04'] = dict(
     text='Narrow claim: necessary structural conditions only. Decided for every input: technique priority cfi > frame pointer > scan with each later technique guarded by frame.is_none() and no way back; technique labels; '
          'arm64.rs and arm64_old.rs are the same MIR modulo the context type; every register name the unwinders use exists in its context\'s tables and every name inserted into or tested against a validity set is the canonical (memoized) spelling; '
          'scan windows (40/160 words, 15 x 16 bytes on amd64 Windows, 1024 bytes on MIPS) equal the documented values. Two alias-spelling defects found by the last rule were repaired in /repo. '
-         'That the right frames come out of a given stack is behavioural and NOT decided: a fault inside a technique\'s arithmetic is invisible here. The x86 FPO technique is checked as a formula table (shared with C07.6): reaching definitions along every path to every set_caller_register call, compared as linear address forms with the documented formulae, and the two decisions compared with the documented ones. ARM64 pointer-authentication mask: all ones below the next power of two above max(2^47-1, end of the highest module) (C04.8). C04.9: the CfiStackWalker handed to the symbol file is built field by field from the callee frame. C04.10: a MIPS walk stays in one ABI - the 32/64-bit dispatch predicate is `flags contain CONTEXT_MIPS64 => n64`, and each scan hands the caller frame context flags that classify it like its callee (a genuine mips64 defect found by this rule was repaired in /repo). C04.11: the amd64 frame-pointer probe does not abort on a candidate-specific read. C04.12: the iOS-only ARM frame-pointer technique follows r7 (known finding). C04.13: the OS preconditions of the frame-pointer techniques, decided by resolving every decision on system_info.os for each variant of enum Os in turn (discriminant switches, PartialEq against a variant, and the boolean flags `matches!` lowers to): the ARM technique reads registers and stack for Os::Ios only; the amd64 technique probes 15 further 16-byte slots (240 bytes of slack) for Os::Windows only and uses the plain layout for every other OS.',
+         'That the right frames come out of a given stack is behavioural and NOT decided: a fault inside a technique\'s arithmetic is invisible here. The x86 FPO technique is checked as a formula table (shared with C07.6): reaching definitions along every path to every set_caller_register call, compared as linear address forms with the documented formulae, and the two decisions compared with the documented ones. ARM64 pointer-authentication mask: all ones below the next power of two above max(2^47-1, end of the highest module) (C04.8). C04.9: the CfiStackWalker handed to the symbol file is built field by field from the callee frame. C04.10: a MIPS walk stays in one ABI - the 32/64-bit dispatch predicate is `flags contain CONTEXT_MIPS64 => n64`, and each scan hands the caller frame context flags that classify it like its callee (a genuine mips64 defect found by this rule was repaired in /repo). C04.11: the amd64 frame-pointer probe does not abort on a candidate-specific read. C04.12: the iOS-only ARM frame-pointer technique follows r7 (known finding). C04.13: the OS preconditions of the frame-pointer techniques, decided by resolving every decision on system_info.os for each variant of enum Os in turn (discriminant switches, PartialEq against a variant, and the boolean flags `matches!` lowers to): the ARM technique reads registers and stack for Os::Ios only; the amd64 technique probes 15 further 16-byte slots (240 bytes of slack) for Os::Windows only and uses the plain layout for every other OS. C04.14: CALLEE_SAVED_REGS of every architecture equals the platform ABI\'s callee-saved set (System V i386 / x86-64, AAPCS32 / AAPCS64, MIPS o32 / n64) without duplicates, alias spellings resolved through the C18 tables.',
     note='Trusted: rustc MIR, the C18 tables (reused). The twin comparison is order-sensitive over statements and terminators with unnamed locals anonymised; reordering independent statements in only one twin is reported.',
     ref='DESIGN.md §3 C04')
 CLAIMS['C08'] = dict(
@@ -159,7 +159,7 @@ CLAIMS['C15'] = dict(
     technique='document/code key-tree agreement (JSON key tree reconstructed from the MIR of json! expansions vs the pseudo-JSON of json-schema.md), value provenance, dominance',
     text='Narrow claim: structure, not values. The tree of object keys print_json can emit (reconstructed from the MIR of every json! expansion, map["k"] = .. and insert mutation, and serde-derived struct reachable from it) equals the key tree of json-schema.md in both directions '
          '(one reviewed documentation gap: proc_limits); every key documented <hexstring> is built by json_hex, an Address (serialised through its Display impl) or a hex format; every documented enumeration value can be produced; '
-         'set_print_context() dominates all formatting; thread_count / frame_count / frame / module_offset / function_offset / the crashing_thread copy / modules are computed from the data they duplicate (between its clone and its insertion the crashing_thread copy is touched only by the inserts of `registers` and `threads_index`: no call that shortens, reorders or replaces parts of it); bytes reach the writer only through serde_json. '
+         'set_print_context() dominates all formatting; thread_count / frame_count / frame / module_offset / function_offset / the crashing_thread copy / modules are computed from the data they duplicate (between its clone and its insertion the crashing_thread copy is touched only by the inserts of `registers` and `threads_index`: no call that shortens, reorders or replaces parts of it; the `registers` it receives are json_registers of the first frame of self.threads[requesting_thread], the thread that was copied); bytes reach the writer only through serde_json. '
          'Validity and escaping are serde_json\'s; schema conformance of values for hostile states is not decided. set_print_context stores this state\'s pointer width into the thread-local unconditionally and is its only writer (C15.3b). Every JSON array is a map over the whole collection it reports: no truncating / filtering adapter (C15.6).',
     note='Trusted: serde_json (valid UTF-8 JSON, escaping, BTreeMap-backed Map), the json! macro expansion shape as seen in MIR, rustc.',
     ref='DESIGN.md §3 C15')
@@ -171,7 +171,7 @@ CLAIMS['C14'] = dict(
          'exception-thread-id.or(breakpad requesting id) == Some(id) and passed the dump-writer-thread early return, and on those paths the walk context is exception_context.or(thread_context), on the others the thread\'s own context; '
          'get_crash_address reads exception_information[1] only for Windows access-violation / in-page errors with number_parameters >= 2 and truncates to 32 bits exactly when pointer_width is Bits32; ExceptionInfo is fed from get_crash_reason / get_crash_address(os, cpu); '
          'process id comes from misc info else Linux status, create time from misc info, time from the header; modules / unloaded modules / system info / handles are the streams\' values; per-frame unloaded offsets are frame.instruction - base_of_image over modules_at_address(frame.instruction) for frames without a module. '
-         'The value-level mapping exception code -> crash reason is NOT decided. C14.7: the Linux status pid has no made-up default (known finding). Every thread that is not the dump writer reaches the requesting-thread decision: the per-thread closure has no other exit before it. The OS / exception-code case split of get_crash_address is decided per enum variant (which variants of Os and of ExceptionCodeWindows reach the read of exception_information[1]), independent of how the split is spelled.',
+         'The value-level mapping exception code -> crash reason is NOT decided. C14.7: the Linux status pid has no made-up default (known finding). Every thread that is not the dump writer reaches the requesting-thread decision: the per-thread closure has no other exit before it. The OS / exception-code case split of get_crash_address is decided per enum variant (which variants of Os and of ExceptionCodeWindows reach the read of exception_information[1]), independent of how the split is spelled. C14.9: the severity / facility / error masks of from_windows_error_with_facility partition the 32-bit code and the facility field is shifted by the position of its mask (an internal-consistency fact of the decomposition; the value-level mapping itself stays undecided).',
     note='Trusted: enumerate/map/collect/zip/join_all preserve positions; MinidumpThread::context and MinidumpException::context decode the right bytes (field-level reading is C02\'s claim). A behaviour-preserving rewrite of these few functions into a different dataflow shape would need the rule updated.',
     ref='DESIGN.md §3 C14')
 
